@@ -14,7 +14,7 @@ FIXTURES = {
     "App1_1.0.3.0_x64.appx": ("appx", "x509"), "dummy.apk": ("apk", "x509"), "zlib1g_1.2.8.dfsg-5_i386.deb": ("deb", "pgp"),
     "rocky-basesystem-11-13.el9.noarch.rpm": ("rpm", "pgp"), "WindowsFormsApplication1.exe.manifest": ("appmanifest", "x509"),
     "hyperv.cat": ("cat", "x509"), "dummy.dmg": ("dmg", "x509"), "dummy.pkg": ("xar", "x509"),
-    "slimfile.app": ("macho", "x509"), "fatfile.app": ("macho", "x509"), "Release": ("pgp", "pgp"),
+    "slimfile.app/dummyapp": ("mach-o", "x509"), "fatfile.app/Contents/MacOS/dummy": ("mach-o-fat", "x509"), "Release": ("pgp", "pgp"),
 }
 DIGESTS = ["sha1", "sha224", "sha256", "sha384", "sha512"]
 
